@@ -588,6 +588,8 @@ class Interp:
         fn = self.ev(f, env)
         if isinstance(fn, str) and (fn in EXC_BASES or fn[:1].isupper()):
             return Raised(fn, args)           # exception constructor
+        if isinstance(fn, Obj) and "_call" in fn.__dict__:
+            fn = fn.__dict__["_call"]        # a modelled callable object (a metaclass, a factory)
         if callable(fn):
             try:
                 return fn(*args, **kwargs)
